@@ -372,6 +372,89 @@ def h_crash(mode):
     return h
 
 
+def h_double(p):
+    """the writer dies; the NEXT constructor dies too (at its own symbolic point); a third one must still work"""
+    I = p.new_int
+    mm, sm, mv, sv, now = I("module_mtime"), I("source_mtime"), I("module_version"), I("source_version"), I("now")
+    p.assume(z3.And(mm >= 0, sm >= 0, now >= sm, now >= mm, sv >= 1, mv >= 0, mv != sv, mm < sm))
+    c1, c2 = I("first_crash_at"), I("second_crash_at")
+    fs = FS(p, c1, None)
+    fs.now = now
+    install(fs)
+    fs.files[SRC] = dict(kind="source", data=types.SimpleNamespace(version=sv), mtime=sm, length=1, total=1)
+    has = p.fork(p.new_bool("module_exists"))
+    if has:
+        fs.files[PATH] = dict(kind="module", version=mv, magic=CG.MAGIC_NUMBER, length=N, total=N, mtime=mm, original=True)
+    deaths = []
+    for crash_var in (c1, c2):
+        fs.crash_at, fs.dead, fs.k = crash_var, False, 0
+        fs.fds.clear()
+        try:
+            mk_template([], False)._compile_from_file(PATH, SRC)
+            deaths.append(None)
+        except Crash:
+            deaths.append(fs.crashed_in)
+        except OSError:
+            deaths.append("oserror")
+    snapshot = {k: dict(v) for k, v in fs.files.items()}
+    fs.crash_at, fs.dead = None, False
+    fs.fds.clear()
+    try:
+        later = ("ok", mk_template([], False)._compile_from_file(PATH, SRC))
+    except Exception as e:
+        later = ("exc", e)
+    for d in deaths:
+        p.tag("crash" if d else "completed")
+    return dict(fs=fs, snap=snapshot, has=has, died="crash" if any(deaths) else None, where=deaths, later=later, log=list(fs.log),
+                sym=dict(mm=mm, sm=sm, mv=mv, sv=sv))
+
+
+def h_verifydir(p):
+    """util.verify_directory: makedirs may fail (another process created a parent, permissions flapping, ...); the documented
+    retry loop gives up only after more than five failed attempts"""
+    fails = [p.new_bool("makedirs_fails_%d" % i) for i in range(8)]
+    appears = p.new_bool("directory_appears_meanwhile")
+    calls = []
+
+    class P:
+        @staticmethod
+        def exists(d):
+            return bool(calls) and calls[-1] == "ok" or (len(calls) >= 2 and p.fork(appears))
+
+    def makedirs(d, mode=0o777):
+        i = len(calls)
+        if i < len(fails) and p.fork(fails[i]):
+            calls.append("fail")
+            raise OSError("mkdir failed")
+        calls.append("ok")
+
+    UT.os = types.SimpleNamespace(path=P, makedirs=makedirs)
+    exc = None
+    try:
+        UT.verify_directory("/mods/sub")
+    except OSError as e:
+        exc = e
+    return dict(calls=list(calls), exc=exc, fails=fails)
+
+
+def on_verifydir(p, r, exc, acc):
+    if exc is not None:
+        acc.candidate(kind="verify-directory-exception", input=None, detail="%s: %s" % (type(exc).__name__, str(exc)[:200]))
+        return
+    acc.tags["ran"] += 1
+    calls = r["calls"]
+    acc.vcs += 1
+    nfail = calls.count("fail")
+    desc = dict(makedirs_outcomes=calls, raised=r["exc"] is not None)
+    if r["exc"] is not None and nfail <= 5:
+        acc.candidate(kind="verify-directory-gave-up-early", input=desc, detail="raised after %d failed attempts" % nfail)
+    if r["exc"] is None and calls and calls[-1] != "ok" and not any(c == "ok" for c in calls):
+        pass
+    if len(calls) > 8:
+        acc.candidate(kind="verify-directory-loops", input=desc, detail="more than 8 attempts")
+    acc.sample(desc)
+
+
 def on_crash(p, r, exc, acc):
     if exc is not None:
         acc.candidate(kind="crash-harness-exception", input=None, detail=repr(exc)[:300])
@@ -526,6 +609,10 @@ def run(check, tier):
              dict(crash_points="all environment calls of the write path"), ("crash", "completed")),
             ("C15-fault", h_crash("fault"), on_crash, "a symbolic environment call fails with OSError, then a later constructor runs",
              dict(fault_points="all environment calls"), ("fault", "completed"))]
+    jobs.append(("C15-verifydir", h_verifydir, on_verifydir, "verify_directory with symbolic makedirs failures", dict(attempts=8), ("ran",)))
+    if tier == "thorough":
+        jobs.append(("C15-double", h_double, on_crash, "two successive writers die at independent symbolic points, then a third constructor runs",
+                     dict(crash_points="all x all"), ("crash",)))
     for j in jobs:
         driver.register(j[0], j[1], j[2])
     cands = []
